@@ -1,7 +1,9 @@
 #!/usr/bin/env python3
 """C19 — the Python module adds only JSON (de)serialisation around the library.
 
-  K1  wrapper shape (Python `ast`, all paths of the two public functions):
+  K1  wrapper, read as paths (Python `ast`, symbolic evaluation: if/else, conditional expressions, early returns,
+      module-level and nested helper functions evaluated at their call sites; per path: the returned term over the
+      parameters, the calls made, the `is None` facts established):
       every optional callable parameter (default None) is rebound to its
       documented default (`json.dumps` / `json.loads`) on every path before it is
       called; the native `_apply` is called exactly once, with
@@ -12,7 +14,9 @@
       None; no try/except, no other call, no global/nonlocal; `_apply` is the
       `apply` of the extension module `.jsonlogic`; the ImportError shim re-raises
       off Windows; `__all__` exports exactly the two functions;
-  K2  native boundary (MIR, feature `python`): the binding's inner function
+  K2  native boundary (MIR, feature `python`; the inner function and the PyResult wrapper are read as decision
+      tables — rules/optnorm.py — so `?`, match, early returns and combinators are one form; a private helper is
+      'not read' as written and decided on the view with it inlined): the binding's inner function
       parses each argument with serde_json::from_str::<Value>, calls the
       library's apply(&rule, &data) in that order, returns Value::to_string of the
       Ok payload; each of the three errors is converted (map_err) and
@@ -32,6 +36,9 @@ from .core import callee_of, callee_path, strip_refs, strip_payload, show_expr, 
 from .engine import Inconclusive
 from . import extract as ex
 from . import errdisc
+from . import optnorm
+
+INLINE_SAFE = [r"^K2\.(serialises-result|wrapper)$"]     # stated on decision cases (values and conditions), not on which functions are called
 
 PYFILE = "py/jsonlogic_rs/__init__.py"
 
@@ -162,196 +169,522 @@ def check_python(ctx):
         if name not in fns:
             continue
         f = PyFn(ctx, tree, fns[name], json_alias, native)
-        check_fn(ctx, f, sp)
+        check_fn(ctx, f, sp, fns)
 
 
-def check_fn(ctx, f, sp):
+# ---------------------------------------------------------------------------------------------------------------
+# K1: the wrapper functions read as *paths* (Python `ast`).  Every way through a public function — `if`/`else`,
+# conditional expressions, early returns, module-level or nested helper functions (evaluated at their call sites) —
+# is one path with: the value it returns as a term over the parameters, the calls it made, and what it established
+# about `x is None` for the values it tested.  The clauses are stated on these paths, not on statement shapes.
+
+BANNED = (ast.Try, ast.Global, ast.Nonlocal, ast.With, ast.While, ast.For, ast.Lambda, ast.Yield, ast.YieldFrom, ast.Await,
+          ast.AsyncFunctionDef, ast.AsyncFor, ast.AsyncWith, ast.ClassDef, ast.Delete, ast.ListComp, ast.DictComp, ast.SetComp, ast.GeneratorExp)
+
+
+class PyState:
+    __slots__ = ("env", "facts", "calls", "unknown")
+
+    def __init__(self, env=None, facts=None, calls=(), unknown=()):
+        self.env, self.facts, self.calls, self.unknown = env or {}, facts or {}, tuple(calls), tuple(unknown)
+
+    def set(self, **kw):
+        n = PyState(self.env, self.facts, self.calls, self.unknown)
+        for k, v in kw.items():
+            setattr(n, k, v)
+        return n
+
+    def bind(self, name, val):
+        e = dict(self.env)
+        e[name] = val
+        return self.set(env=e)
+
+    def know(self, val, what):
+        f = dict(self.facts)
+        f[val] = what
+        return self.set(facts=f)
+
+
+class PyPaths:
+    """Symbolic evaluation of one function of the wrapper module.  Values:
+       ("param", name) | ("const", v) | ("json", attr) | ("native",) | ("func", FunctionDef) | ("global", name) |
+       ("attr", value, name) | ("call", callee value, (args…), (keyword names…), uid, node) | ("opaque", source)"""
+    MAX = 400
+
+    def __init__(self, modfuncs, json_alias, native):
+        self.modfuncs, self.json, self.native = modfuncs, json_alias, native
+        self.uid = 0
+        self.problems = []        # (kind, key, detail, node): "construct" = a statement/expression form outside the adapter language
+        self.overflow = False
+        self.inlined = set()
+        self.stack = []
+
+    # ---- expressions → [(value, state)]
+    def lookup(self, name, st):
+        if name in st.env:
+            return st.env[name]
+        if name in self.modfuncs:
+            return ("func", self.modfuncs[name])
+        if name == self.json:
+            return ("jsonmod",)
+        if name == self.native:
+            return ("native",)
+        return ("global", name)
+
+    def eval(self, e, st, depth=0):
+        if isinstance(e, ast.Constant):
+            return [(("const", e.value), st)]
+        if isinstance(e, ast.Name):
+            return [(self.lookup(e.id, st), st)]
+        if isinstance(e, ast.Attribute):
+            out = []
+            for v, s1 in self.eval(e.value, st, depth):
+                out.append((("json", e.attr) if v == ("jsonmod",) else ("attr", v, e.attr), s1))
+            return out
+        if isinstance(e, ast.IfExp):
+            out = []
+            for truth, s1 in self.test(e.test, st, depth):
+                out.extend(self.eval(e.body if truth else e.orelse, s1, depth))
+            return out
+        if isinstance(e, ast.Call):
+            return self.call(e, st, depth)
+        if isinstance(e, BANNED):
+            self.problems.append(("construct", type(e).__name__, "a %s expression" % type(e).__name__, e))
+        # any other computation on the values: the calls inside it are still made
+        states = [st]
+        for sub in ast.iter_child_nodes(e):
+            if isinstance(sub, ast.expr):
+                states = [s2 for s1 in states for (_v, s2) in self.eval(sub, s1, depth)]
+        return [(("opaque", src_name(e)), s1) for s1 in states]
+
+    def call(self, e, st, depth):
+        out = []
+        for fv, s1 in self.eval(e.func, st, depth):
+            argstates = [((), s1)]
+            star = False
+            for a in e.args:
+                if isinstance(a, ast.Starred):
+                    star = True
+                    a = a.value
+                argstates = [(vals + (v,), s3) for (vals, s2) in argstates for (v, s3) in self.eval(a, s2, depth)]
+            kwnames = []
+            kwstates = [(vals, (), s2) for (vals, s2) in argstates]
+            for kw in e.keywords:
+                if kw.arg is None:
+                    star = True
+                kwnames.append(kw.arg)
+                kwstates = [(vals, kvs + (v,), s3) for (vals, kvs, s2) in kwstates for (v, s3) in self.eval(kw.value, s2, depth)]
+            for vals, kvs, s2 in kwstates:
+                if len(out) > self.MAX:
+                    self.overflow = True
+                    return out
+                if fv[0] == "func" and fv[1].name in self.stack:
+                    # a helper that calls itself is a loop: outside the adapter language, like `for`/`while` (reported once)
+                    if ("rec", fv[1].name) not in self.inlined:
+                        self.inlined.add(("rec", fv[1].name))
+                        self.problems.append(("construct", "%s:recursion" % fv[1].name, "the helper %s is recursive (a loop)" % fv[1].name, e))
+                elif fv[0] == "func" and not star and depth < 4 and (len(fv) == 2 or fv[3] == depth):
+                    out.extend(self.inline(fv[1], vals, dict(zip(kwnames, kvs)), s2, depth, e, nested=len(fv) > 2))
+                    continue
+                if fv[0] == "func" and fv[1].name not in self.stack:
+                    self.problems.append(("unread", fv[1].name, "the call of the helper %s could not be followed" % fv[1].name, e))
+                self.uid += 1
+                v = ("call", fv, vals + kvs, tuple(kwnames) + (("*",) if star else ()), self.uid, e)
+                out.append((v, s2.set(calls=s2.calls + (v,))))
+        return out
+
+    def inline(self, fn, vals, kws, st, depth, site, nested=False):
+        """A helper function of the module (or a nested one) evaluated at its call site."""
+        if fn.name not in self.inlined:
+            self.inlined.add(fn.name)
+            for n in ast.walk(fn):
+                if isinstance(n, BANNED):
+                    self.problems.append(("construct", "%s:%s" % (fn.name, type(n).__name__), "the helper %s contains a %s" % (fn.name, type(n).__name__), n))
+        a = fn.args
+        names = [x.arg for x in a.posonlyargs + a.args]
+        defaults = [None] * (len(names) - len(a.defaults)) + list(a.defaults)
+        if a.vararg or a.kwarg or len(vals) > len(names) or any(k not in names + [x.arg for x in a.kwonlyargs] for k in kws):
+            self.uid += 1
+            v = ("call", ("func", fn), vals, tuple(kws), self.uid, site)
+            return [(v, st.set(calls=st.calls + (v,)))]
+        env = dict(st.env) if nested else {}
+        for i, nme in enumerate(names):
+            if i < len(vals):
+                env[nme] = vals[i]
+            elif nme in kws:
+                env[nme] = kws[nme]
+            elif defaults[i] is not None:
+                env[nme] = ("const", defaults[i].value) if isinstance(defaults[i], ast.Constant) else ("opaque", src_name(defaults[i]))
+            else:
+                env[nme] = ("opaque", "<missing argument %s>" % nme)
+        for x, d in zip(a.kwonlyargs, a.kw_defaults):
+            env[x.arg] = kws.get(x.arg, ("const", d.value) if isinstance(d, ast.Constant) else ("opaque", src_name(d) if d is not None else "<missing>"))
+        out = []
+        self.stack.append(fn.name)
+        try:
+            for kind, val, s1 in self.block(fn.body, st.set(env=env), depth + 1):
+                out.append((val if kind == "return" else ("const", None), s1.set(env=st.env)))
+        finally:
+            self.stack.pop()
+        return out
+
+    # ---- tests → [(truth, state)]
+    def test(self, e, st, depth=0):
+        if isinstance(e, ast.UnaryOp) and isinstance(e.op, ast.Not):
+            return [(not t, s1) for t, s1 in self.test(e.operand, st, depth)]
+        if isinstance(e, ast.BoolOp):
+            conj = isinstance(e.op, ast.And)
+            cur = [(conj, st)]
+            for sub in e.values:
+                nxt = []
+                for t, s1 in cur:
+                    if t != conj:
+                        nxt.append((t, s1))        # short-circuited
+                    else:
+                        nxt.extend(self.test(sub, s1, depth))
+                cur = nxt
+            return cur
+        if isinstance(e, ast.Constant):
+            return [(bool(e.value), st)]
+        if isinstance(e, ast.Compare) and len(e.ops) == 1 and isinstance(e.ops[0], (ast.Is, ast.IsNot)) and isinstance(e.comparators[0], ast.Constant) and e.comparators[0].value is None:
+            positive = isinstance(e.ops[0], ast.Is)
+            out = []
+            for v, s1 in self.eval(e.left, st, depth):
+                k = self.nullness(v, s1)
+                if k is not None:
+                    out.append(((k == "none") == positive, s1))
+                else:
+                    out.append((positive, s1.know(v, "none")))
+                    out.append((not positive, s1.know(v, "notnone")))
+            return out
+        # any other test (truthiness, comparisons, isinstance …): both ways, nothing learnt
+        out = []
+        for v, s1 in self.eval(e, st, depth):
+            s2 = s1.set(unknown=s1.unknown + (src_name(e),))
+            out.append((True, s2))
+            out.append((False, s2))
+        return out
+
+    @staticmethod
+    def nullness(v, st):
+        if v[0] == "const":
+            return "none" if v[1] is None else "notnone"
+        if v[0] in ("json", "native", "func", "jsonmod"):
+            return "notnone"
+        return st.facts.get(v)
+
+    # ---- statements → [("return", value, state) | ("next", None, state)]
+    def block(self, stmts, st, depth=0):
+        cur = [st]
+        done = []
+        for s in stmts:
+            nxt = []
+            for s0 in cur:
+                for kind, val, s1 in self.stmt(s, s0, depth):
+                    if kind == "return":
+                        done.append((kind, val, s1))
+                    else:
+                        nxt.append(s1)
+            cur = nxt
+            if len(cur) + len(done) > self.MAX:
+                self.overflow = True
+                break
+        return done + [("next", None, s1) for s1 in cur]
+
+    def stmt(self, s, st, depth):
+        if isinstance(s, ast.Expr):
+            if isinstance(s.value, ast.Constant):
+                return [("next", None, st)]
+            return [("next", None, s1) for _v, s1 in self.eval(s.value, st, depth)]
+        if isinstance(s, ast.Pass):
+            return [("next", None, st)]
+        if isinstance(s, (ast.Assign, ast.AnnAssign)) and getattr(s, "value", None) is not None:
+            tgts = s.targets if isinstance(s, ast.Assign) else [s.target]
+            if len(tgts) == 1 and isinstance(tgts[0], ast.Name):
+                return [("next", None, s1.bind(tgts[0].id, v)) for v, s1 in self.eval(s.value, st, depth)]
+        if isinstance(s, ast.If):
+            out = []
+            for truth, s1 in self.test(s.test, st, depth):
+                out.extend(self.block(s.body if truth else s.orelse, s1, depth))
+            return out
+        if isinstance(s, ast.Return):
+            if s.value is None:
+                return [("return", ("const", None), st)]
+            return [("return", v, s1) for v, s1 in self.eval(s.value, st, depth)]
+        if isinstance(s, ast.FunctionDef):
+            # a nested helper: its free variables are those of the function that defines it, looked up when it is called
+            return [("next", None, st.bind(s.name, ("func", s, "nested", depth)))]
+        self.problems.append(("construct", type(s).__name__, "a %s statement" % type(s).__name__, s))
+        return [("next", None, st)]
+
+
+def show_val(v):
+    if v[0] == "param":
+        return v[1]
+    if v[0] == "const":
+        return repr(v[1])
+    if v[0] == "json":
+        return "json.%s" % v[1]
+    if v[0] == "native":
+        return "<native apply>"
+    if v[0] == "func":
+        return v[1].name
+    if v[0] == "global":
+        return v[1]
+    if v[0] == "attr":
+        return "%s.%s" % (show_val(v[1]), v[2])
+    if v[0] == "call":
+        return "%s(%s)" % (show_val(v[1]), ", ".join(show_val(a) for a in v[2]))
+    return v[1] if len(v) > 1 else v[0]
+
+
+def check_fn(ctx, f, sp, modfuncs):
     fn = f.fn
     name = fn.name
     w = lambda n: "%s:%d" % (PYFILE, getattr(n, "lineno", fn.lineno))
     ctx.check(f.order[:2] == ["value", "data"] and f.is_none_default("data"), "K1.signature", "%s(value, data=None, …)" % name, "parameters are %s" % f.order, where=f.where)
     for p in sp["callables"]:
         ctx.check(p in f.params and f.is_none_default(p), "K1.optional", "%s: %s defaults to None" % (name, p), "parameter %s missing or with another default" % p, where=f.where)
-    # forbidden constructs
+    # constructs outside the adapter language (an except clause could swallow or re-type the ValueError)
     for n in ast.walk(fn):
-        if isinstance(n, (ast.Try, ast.Global, ast.Nonlocal, ast.With, ast.While, ast.For, ast.Lambda, ast.Yield, ast.Await)):
+        if isinstance(n, BANNED):
             ctx.fail("K1.construct", "%s:%s" % (name, type(n).__name__), "%s contains a %s — the wrapper must be a straight-line adapter (an except clause could swallow or re-type the ValueError)" % (name, type(n).__name__), where=w(n), fn=name)
-    # dataflow over the straight-line body (if statements allowed)
-    state = {"nonnull": {}, "data_null": False}  # param -> default expr it was rebound to
-    calls = []
+    ev = PyPaths({k: v for k, v in modfuncs.items() if k != name}, f.json, f.native)
+    st0 = PyState(env={p: ("param", p) for p in f.order})
+    paths = ev.block(fn.body, st0)
+    for kind, key, detail, node in ev.problems:
+        if kind == "unread":
+            ctx.unread("K1.returns-decoded", "%s:%s" % (name, key), detail, where=w(node), fn=name)
+            continue
+        ctx.fail("K1.construct", "%s:%s" % (name, key), "%s: %s — the wrapper must be a straight-line adapter" % (name, detail), where=w(node), fn=name)
+    if ev.overflow or not paths:
+        ctx.unread("K1.returns-decoded", name, "%s has too many paths to be read" % name, where=f.where, fn=name)
+        return
+    if any(k == "unread" for k, *_ in ev.problems):
+        return
+    fails = {}     # clause -> (detail, where)
+    P = lambda n: ("param", n)
 
-    def visit_expr(e, st):
-        for n in ast.walk(e):
-            if isinstance(n, ast.Call):
-                calls.append((n, dict(st["nonnull"]), st["data_null"], dict(st.get("assigned", {}))))
+    def bad(clause, detail, node=None):
+        fails.setdefault(clause, (detail, w(node) if node is not None else f.where))
 
-    def run_block(stmts, st):
-        for s in stmts:
-            if isinstance(s, ast.Expr) and isinstance(s.value, ast.Constant):
-                continue  # docstring
-            if isinstance(s, ast.Assign) and len(s.targets) == 1 and isinstance(s.targets[0], ast.Name):
-                tgt = s.targets[0].id
-                visit_expr(s.value, st)
-                d = defaulted_value(s.value, tgt)
-                if d is not None and tgt in f.params:
-                    if tgt == "data":
-                        st["data_null"] = d
-                    else:
-                        st["nonnull"][tgt] = d
-                else:
-                    st.setdefault("assigned", {})[tgt] = s.value
-                    if tgt in st["nonnull"]:
-                        del st["nonnull"][tgt]
-            elif isinstance(s, ast.If):
-                visit_expr(s.test, st)
-                # `if p is None: p = D`
-                done = False
-                for p in list(f.params):
-                    if none_test(s.test, p) == -1 and len(s.body) == 1 and isinstance(s.body[0], ast.Assign) and is_name(s.body[0].targets[0], p) and not s.orelse:
-                        visit_expr(s.body[0].value, st)
-                        if p == "data":
-                            st["data_null"] = s.body[0].value
-                        else:
-                            st["nonnull"][p] = s.body[0].value
-                        done = True
-                if not done:
-                    a = {"nonnull": dict(st["nonnull"]), "data_null": st["data_null"], "assigned": dict(st.get("assigned", {}))}
-                    b = {"nonnull": dict(st["nonnull"]), "data_null": st["data_null"], "assigned": dict(st.get("assigned", {}))}
-                    run_block(s.body, a)
-                    run_block(s.orelse, b)
-                    st["nonnull"] = {k: v for k, v in a["nonnull"].items() if k in b["nonnull"]}
-                    st["data_null"] = a["data_null"] if (a["data_null"] and b["data_null"]) else False
-            elif isinstance(s, ast.Return):
-                if s.value is not None:
-                    visit_expr(s.value, st)
-                st.setdefault("returns", []).append((s, dict(st.get("assigned", {}))))
-            elif isinstance(s, ast.Expr):
-                visit_expr(s.value, st)
+    def callable_ok(fv, st, param, attr, node):
+        """The callable used is the supplied one when one was supplied, json.<attr> exactly when none was."""
+        if fv == P(param):
+            if st.facts.get(fv) != "notnone":
+                bad("K1.defaulted", "%s(…) is called although %s may still be None (on some path it is not replaced by its default before the call): TypeError instead of a result" % (param, param), node)
+            return True
+        if fv == ("json", attr):
+            if st.facts.get(P(param)) != "none":
+                bad("K1.default-is-json", "json.%s is used on a path on which %s may have been supplied: the caller's %s is ignored" % (attr, param, param), node)
+            return True
+        if fv[0] in ("json", "const", "global", "opaque", "attr", "call", "func", "native", "param"):
+            if st.facts.get(P(param)) == "none" or fv[0] == "json":
+                bad("K1.default-is-json", "%s defaults to %s instead of json.%s" % (param, show_val(fv), attr), node)
             else:
-                ctx.fail("K1.construct", "%s:%s" % (name, type(s).__name__), "unexpected statement %s in %s" % (type(s).__name__, name), where=w(s), fn=name)
+                bad("K1.defaulted", "where %s is expected, %s is called" % (param, show_val(fv)), node)
+        return False
 
-    run_block(fn.body, state)
-    # calls: only the optional callables, json defaults and the native function
-    native_calls = []
-    for c, nonnull, data_null, assigned_at in calls:
-        callee = c.func
-        if isinstance(callee, ast.Name) and callee.id in sp["callables"]:
-            p = callee.id
-            d = nonnull.get(p)
-            ok = d is not None
-            ctx.check(ok, "K1.defaulted", "%s: %s is non-None when called" % (name, p),
-                      "%s(…) is called although %s may still be None (no `%s = %s if %s is not None else …` on every path before the call): TypeError instead of a result" % (p, p, p, p, p), where=w(c), fn=name, nontrivial=True)
-            if ok:
-                want = sp["callables"][p]
-                good = isinstance(d, ast.Attribute) and is_name(d.value, f.json) and d.attr == want
-                ctx.check(good, "K1.default-is-json", "%s: %s defaults to json.%s" % (name, p, want), "%s defaults to %s" % (p, src_name(d)), where=w(c), fn=name, nontrivial=True)
-        elif isinstance(callee, ast.Name) and callee.id == f.native:
-            native_calls.append((c, nonnull, data_null, assigned_at))
-        elif isinstance(callee, ast.Attribute) and is_name(callee.value, f.json) and callee.attr in ("dumps", "loads"):
-            pass
+    for kind, val, st in paths:
+        natives = [c for c in st.calls if c[1] == ("native",)]
+        if len(natives) != 1:
+            bad("K1.native-once", "%d calls of the native function on a path through %s" % (len(natives), name), natives[1][5] if len(natives) > 1 else None)
+        if kind != "return" or val == ("const", None):
+            bad("K1.returns-decoded", "%s can end without returning a value" % name)
+            continue
+        used = []
+        if not (val[0] == "call" and len(val[2]) == 1 and not val[3]):
+            bad("K1.returns-decoded", "%s returns %s — not deserializer(<result of the native apply>)" % (name, show_val(val)[:120]), val[5] if val[0] == "call" else None)
+            continue
+        used.append(val)
+        if not callable_ok(val[1], st, "deserializer", "loads", val[5]):
+            bad("K1.returns-decoded", "%s returns %s — not deserializer(<result of the native apply>)" % (name, show_val(val)[:120]), val[5])
+        nat = val[2][0]
+        if not (nat[0] == "call" and nat[1] == ("native",)):
+            bad("K1.returns-decoded", "%s returns %s — the decoded value is not the result of the native apply" % (name, show_val(val)[:120]), val[5])
+            continue
+        used.append(nat)
+        if len(nat[2]) != 2 or nat[3]:
+            bad("K1.native-args", "native call: %s" % show_val(nat)[:120], nat[5])
+            continue
+        a0, a1 = nat[2]
+        if sp["args"] == "serialized":
+            for i, (a, pn, clause, what) in enumerate(((a0, "value", "K1.rule-arg", "first"), (a1, "data", "K1.data-arg", "second"))):
+                good = a[0] == "call" and len(a[2]) == 1 and not a[3] and (a[2][0] == P(pn) or (a[2][0] == ("const", None) and st.facts.get(P(pn)) == "none"))
+                if not good:
+                    bad(clause, "%s native argument is %s — must be serializer(%s)%s" % (what, show_val(a)[:100], pn, "; supplied data must be serialised as it is, omitted data as null" if pn == "data" else ""), nat[5])
+                    continue
+                used.append(a)
+                callable_ok(a[1], st, "serializer", "dumps", a[5])
         else:
-            ctx.fail("K1.other-call", "%s:%s" % (name, src_name(callee)), "%s calls %s — the wrapper may only serialise, call the native function and deserialise" % (name, src_name(callee)), where=w(c), fn=name)
-    ctx.check(len(native_calls) == 1, "K1.native-once", "%s calls the native apply exactly once" % name, "%d calls of the native function" % len(native_calls), where=f.where, fn=name, nontrivial=True)
-    if len(native_calls) != 1:
+            if a0 != P("value"):
+                bad("K1.rule-arg", "first native argument is %s — must be value, unchanged" % show_val(a0)[:100], nat[5])
+            dk = st.facts.get(P("data"))
+            if a1 == P("data"):
+                if dk != "notnone":
+                    bad("K1.data-arg", "data is passed to the native function on a path on which it may be None — must be `data if data is not None else \"null\"`", nat[5])
+            elif a1 == ("const", "null"):
+                if dk != "none":
+                    bad("K1.data-arg", "the literal \"null\" replaces data on a path on which data was not established to be None (decided by: %s) — must be `data if data is not None else \"null\"`" % (", ".join(st.unknown) or "nothing"), nat[5])
+            else:
+                bad("K1.data-arg", "second native argument is %s — must be `data if data is not None else \"null\"`" % show_val(a1)[:100], nat[5])
+        for c in st.calls:
+            if not any(c is u for u in used) and c[1] != ("native",):
+                bad("K1.other-call:%s" % show_val(c[1])[:40], "%s calls %s — the wrapper may only serialise, call the native function and deserialise" % (name, show_val(c)[:80]), c[5])
+    for clause, (detail, where) in sorted(fails.items()):
+        cl, _, inst = clause.partition(":")
+        ctx.fail(cl, "%s:%s" % (name, inst) if inst else name, detail, where=where, fn=name)
+    oks = {"K1.native-once": "%s calls the native apply exactly once on every path" % name,
+           "K1.returns-decoded": "%s returns deserializer(native result) on every path" % name,
+           "K1.rule-arg": "%s passes the rule first (%s)" % (name, "serializer(value)" if sp["args"] == "serialized" else "value, unchanged"),
+           "K1.data-arg": "%s passes %s second" % (name, "serializer(data) (None serialises to null)" if sp["args"] == "serialized" else "data, or the literal \"null\" exactly when data is None"),
+           "K1.defaulted": "%s: no optional callable is called while it may be None" % name,
+           "K1.default-is-json": "%s: the defaults are json.%s, used exactly when nothing was supplied" % (name, "/json.".join(sorted(set(sp["callables"].values())))),
+           "K1.other-call": "%s makes no other call" % name}
+    failed = {c.partition(":")[0] for c in fails}
+    for cl, txt in oks.items():
+        if cl not in failed:
+            ctx.ok(cl, txt, nontrivial=cl not in ("K1.other-call",), sample={"paths": len(paths), "helpers": sorted(x for x in ev.inlined if isinstance(x, str))})
+
+
+# ---------------------------------------------------------------------------------------------------------------
+# K2 on the decision cases of the binding (rules/optnorm.py): `?`, match, if-let, early returns and the Result
+# combinators are one table   conditions on the fallible steps  =>  value returned.
+
+def _step_source(e):
+    """The fallible call a value is the success payload of: through references, `?`, map_err and payload
+    projections (not through anything that could supply a value when the step failed)."""
+    for _ in range(24):
+        e = strip_refs(e)
+        if e[0] in ("payload", "payload-err") and len(e) > 2:
+            e = e[2]
+            continue
+        e2 = strip_payload(e)
+        if e2 == e:
+            return e2
+        e = e2
+    return e
+
+
+def _is_lib_apply(facts, e):
+    if e[0] != "call" or not e[1]:
+        return False
+    c = e[1]
+    return c.get("key") == "jsonlogic_rs::apply" or bool(c.get("local") and facts.items.get(c.get("key"), {}).get("inputs") == ["&serde_json::Value", "&serde_json::Value"])
+
+
+def _is_local_helper(facts, e):
+    return e[0] == "call" and bool(e[1]) and bool(e[1].get("local")) and not _is_lib_apply(facts, e)
+
+
+def _mentions_helper(facts, e, but=None):
+    return expr_mentions(e, lambda y: y[0] == "call" and y[1] is not None and _is_local_helper(facts, y) and (but is None or y[1].get("key") != but))
+
+
+def _errish(v):
+    v = strip_refs(v)
+    if v[0] == "agg" and v[1].get("variant") == "Err":
+        return True
+    return v[0] == "call" and bool(v[1]) and "from_residual" in v[1]["path"]
+
+
+def _case_atoms(cs, conds):
+    """[(atom key, source expression, value)] of the conditions that are outcomes of Option/Result-valued steps."""
+    out = []
+    for k, val in conds.items():
+        if k[0] == "variant" and val in ("Ok", "Err", "Some", "None"):
+            out.append((k, (cs.exprs or {}).get(k) or optnorm.SRC_EXPRS.get(k), val))
+    return out
+
+
+def binding_table(ctx, facts, f, py):
+    """The inner binding function read as a decision table."""
+    fk = f.key.split("::", 1)[1]
+    cs = optnorm.decision_cases(facts, f)
+    if cs is None:
+        for cl in ("K2.parse-order", "K2.serialises-result", "K2.parse-errors-propagate"):
+            ctx.unread(cl, fk, "the binding contains a loop or too many paths to be read as a decision table", where=f.where(), fn=f.key)
         return
-    c, nonnull, data_null, assigned_at = native_calls[0]
-    ctx.check(len(c.args) == 2 and not c.keywords, "K1.native-args", "%s passes two positional arguments" % name, "native call: %s" % src_name(c), where=w(c), fn=name)
-    if len(c.args) != 2:
-        return
-    a0, a1 = c.args
-    # a local that holds an argument (`encoded = serializer(value)`) stands for the expression it was assigned
-    a0 = assigned_at.get(a0.id, a0) if isinstance(a0, ast.Name) and a0.id not in f.params else a0
-    a1 = assigned_at.get(a1.id, a1) if isinstance(a1, ast.Name) and a1.id not in f.params else a1
-    if sp["args"] == "serialized":
-        g0 = isinstance(a0, ast.Call) and is_name(a0.func, "serializer") and len(a0.args) == 1 and is_name(a0.args[0], "value") and not a0.keywords
-        g1 = isinstance(a1, ast.Call) and is_name(a1.func, "serializer") and len(a1.args) == 1 and is_name(a1.args[0], "data") and not a1.keywords
-        ctx.check(g0, "K1.rule-arg", "apply passes serializer(value) first", "first native argument is %s" % src_name(a0), where=w(c), fn=name, nontrivial=True)
-        ctx.check(g1, "K1.data-arg", "apply passes serializer(data) second (None serialises to null)", "second native argument is %s — supplied data must be serialised as it is, omitted data as null" % src_name(a1), where=w(c), fn=name, nontrivial=True)
+
+    def step_of(src):
+        """('parse', i) | ('apply',) | ('helper', key) | ('other', shown)"""
+        if src is None:
+            return ("other", "?")
+        x = _step_source(src)
+        if x[0] == "call" and x[1] and x[1]["path"] == "serde_json::from_str":
+            txt = strip_refs(x[2][0])
+            if "serde_json::Value" in (x[1].get("full") or "") and txt in (("arg", 1), ("arg", 2)):
+                return ("parse", txt[1])
+            return ("other", show_expr(x)[:120])
+        if _is_lib_apply(facts, x):
+            return ("apply",)
+        if _is_local_helper(facts, x):
+            return ("helper", x[1].get("key"))
+        return ("other", show_expr(x)[:120])
+
+    ok_cases, err_cases = [], []
+    for conds, v, path in cs:
+        v = strip_refs(v)
+        atoms = [(k, step_of(src), val) for (k, src, val) in _case_atoms(cs, conds)]
+        failed = [(k, st) for (k, st, val) in atoms if val in ("Err", "None")]
+        napply = sum(1 for ev in path.events if _is_lib_apply(facts, ("call", ev[1], ev[2], ev[3])))
+        if v[0] == "agg" and v[1].get("variant") == "Ok":
+            ok_cases.append((conds, v, path, atoms, failed, napply))
+        elif _errish(v):
+            err_cases.append((conds, v, path, atoms, failed, napply))
+        else:
+            ctx.unread("K2.serialises-result", fk, "a way through the binding returns %s, which is neither Ok(..) nor an error" % show_expr(v)[:120], where=f.where(), fn=f.key)
+    # ---- success: Ok(Value::to_string(payload of apply(payload of from_str(arg1), payload of from_str(arg2))))
+    helper_seen = None
+    good_ok = 0
+    for conds, v, path, atoms, failed, napply in ok_cases:
+        if failed:
+            ctx.fail("K2.parse-errors-propagate", "%s|swallowed" % fk, "the binding returns a value although %s failed — the Python caller gets a result instead of ValueError" % ", ".join(sorted({" ".join(map(str, st)) for _, st in failed})), where=f.where(), fn=f.key)
+            continue
+        x = strip_refs(v[2][0]) if v[2] else ("unit",)
+        ser = x[0] == "call" and x[1] and x[1]["path"].endswith("::to_string") and "serde_json::Value" in (x[1].get("full") or "") and x[2]
+        src = _step_source(x[2][0]) if ser else None
+        if not ser or not _is_lib_apply(facts, src):
+            if _mentions_helper(facts, x):
+                helper_seen = helper_seen or "the success value"
+                ctx.unread("K2.serialises-result", fk, "the value returned on success is computed by a helper function: %s" % show_expr(x)[:120], where=f.where(), fn=f.key)
+            else:
+                ctx.fail("K2.serialises-result", fk, "the binding's success value is %s — not Value::to_string of the payload of the library's apply" % show_expr(x)[:200], where=f.where(), fn=f.key)
+            continue
+        ctx.check(napply == 1, "K2.calls-apply-once", "the binding calls the library's apply exactly once on its way to a result", "%d calls of the library's apply on a way to a result" % napply, where=f.where(src[3] if src[3] >= 0 else None), fn=f.key, nontrivial=True)
+        args = [_step_source(a) for a in src[2]]
+        sts = [step_of(a) for a in src[2]]
+        if sts == [("parse", 1), ("parse", 2)]:
+            ctx.ok("K2.parse-order", "apply(from_str::<Value>(value)?, from_str::<Value>(data)?) — rule first, data second", nontrivial=True, sample={"args": [show_expr(a)[:80] for a in args]})
+            ctx.ok("K2.serialises-result", "the binding returns Value::to_string of apply's Ok payload, and nothing else on success", nontrivial=True)
+            good_ok += 1
+        elif any(st[0] == "helper" for st in sts):
+            ctx.unread("K2.parse-order", fk, "an argument of the library call is produced by the helper function %s" % [st[1] for st in sts if st[0] == "helper"][0], where=f.where(), fn=f.key)
+        else:
+            ctx.fail("K2.parse-order", fk, "the library is called with (%s, %s) — not with serde_json::from_str::<Value> of the whole first and second argument, in this order" % (show_expr(args[0])[:160], show_expr(args[1])[:160]) if len(args) == 2 else "the library is called with %d arguments" % len(args), where=f.where(), fn=f.key)
+    if not ok_cases:
+        ctx.fail("K2.serialises-result", fk, "no way through the binding returns Ok(..)", where=f.where(), fn=f.key)
+    # ---- failure: every error exit belongs to a failed step; every step has one
+    have = set()
+    for conds, v, path, atoms, failed, napply in err_cases:
+        if not failed:
+            others = [k for k in conds if k[0] != "variant"]
+            if others and not any(st[0] == "helper" for _, st, _v in atoms):
+                ctx.fail("K2.parse-errors-propagate", "%s|extra-error" % fk, "the binding fails on a way on which no parse and no evaluation failed (decided by %s): inputs the library accepts raise ValueError" % ", ".join(str(k[0]) + ":" + str(k[1])[:60] for k in others[:3]), where=f.where(), fn=f.key)
+            else:
+                ctx.unread("K2.parse-errors-propagate", "%s|extra-error" % fk, "an error exit whose cause could not be read", where=f.where(), fn=f.key)
+            continue
+        for k, st in failed:
+            have.add(st)
+    unread_helpers = sorted({st[1] for c in ok_cases + err_cases for (_k, st, _v) in c[3] if st[0] == "helper"})
+    want = [("parse", 1), ("parse", 2), ("apply",)]
+    missing = [st for st in want if st not in have]
+    if not missing:
+        ctx.ok("K2.parse-errors-propagate", "the two parse errors and the library's error each have their own error exit (`?` or an Err arm), and there is no other", nontrivial=True)
+    elif unread_helpers:
+        ctx.unread("K2.parse-errors-propagate", fk, "fallible steps are inside the helper function(s) %s" % ", ".join(unread_helpers), where=f.where(), fn=f.key)
     else:
-        ctx.check(is_name(a0, "value"), "K1.rule-arg", "apply_serialized passes value first, unchanged", "first native argument is %s" % src_name(a0), where=w(c), fn=name, nontrivial=True)
-        d = defaulted_value(a1, "data")
-        if d is None and is_name(a1, "data") and data_null:
-            d = data_null
-        good = isinstance(d, ast.Constant) and d.value == "null"
-        ctx.check(good, "K1.data-arg", "apply_serialized passes data, or the literal \"null\" exactly when data is None", "second native argument is %s — must be `data if data is not None else \"null\"`" % src_name(a1), where=w(c), fn=name, nontrivial=True)
-    # return deserializer(<native result>)
-    rets = state.get("returns", [])
-    ctx.check(len(rets) == 1, "K1.single-return", "%s has one return" % name, "%d return statements" % len(rets), where=f.where, fn=name)
-    for r, assigned in rets:
-        v = r.value
-        good = isinstance(v, ast.Call) and is_name(v.func, "deserializer") and len(v.args) == 1 and not v.keywords
-        if good:
-            x = v.args[0]
-            if isinstance(x, ast.Name) and x.id in assigned:
-                x = assigned[x.id]
-            good = x is c
-        ctx.check(bool(good), "K1.returns-decoded", "%s returns deserializer(native result)" % name, "%s returns %s" % (name, src_name(v)), where=w(r), fn=name, nontrivial=True)
-
-
-def check_native(ctx):
-    facts = ctx.facts("python")
-    py = [b for b in facts.fns() if "python_iface" in b.key and not b.span.get("exp")]
-    ctx.need(py, "python interface functions not found")
-    # inner: fn(&str,&str) -> Result<String,String>; wrapper: returns PyResult
-    inner = [b for b in py if b.kind == "fn" and facts.items[b.key]["inputs"] == ["&str", "&str"]]
-    wrapper = [b for b in py if b.kind == "fn" and "cpython::PyErr" in facts.items[b.key]["output"]]
-    ctx.need(len(inner) == 1 and len(wrapper) == 1, "binding functions not identified (inner %d, wrapper %d)" % (len(inner), len(wrapper)))
-    f, w = inner[0], wrapper[0]
-    lib_apply = [(bi, t) for bi, t in f.calls() if callee_of(t) and callee_of(t).get("key") == "jsonlogic_rs::apply" or (callee_of(t) and callee_of(t)["local"] and facts.items.get(callee_of(t)["key"], {}).get("inputs") == ["&serde_json::Value", "&serde_json::Value"])]
-    ctx.check(len(lib_apply) == 1, "K2.calls-apply-once", "the binding calls the library's apply exactly once", "%d calls" % len(lib_apply), where=f.where(), fn=f.key, nontrivial=True)
-    if len(lib_apply) != 1:
-        return
-    abi, at = lib_apply[0]
-
-    def parsed_param(e):
-        s = strip_payload(e)
-        if s[0] == "call" and s[1] and s[1]["path"] == "serde_json::from_str" and "serde_json::Value" in s[1]["full"]:
-            return strip_refs(s[2][0])
-        return None
-
-    p0, p1 = parsed_param(f.trace(at["args"][0])), parsed_param(f.trace(at["args"][1]))
-    ctx.check(p0 == ("arg", 1) and p1 == ("arg", 2), "K2.parse-order", "apply(from_str(value)?, from_str(data)?) — rule first, data second",
-              "the library is called with (%s, %s)" % (show_expr(strip_payload(f.trace(at["args"][0]))), show_expr(strip_payload(f.trace(at["args"][1])))), where=f.where(abi), fn=f.key, nontrivial=True)
-    # result: Value::to_string of apply's Ok payload — `apply(..).map_err(..).map(|v| v.to_string())` or
-    # `match apply(..) { Ok(v) => Ok(v.to_string()), Err(e) => Err(..) }`; every other exit is an error tied to a fallible step
-    r = strip_refs(f.trace(0))
-    cands = [strip_refs(x) for x in r[2]] if r[0] == "phi" else [r]
-    parse_bis = [bi for bi, t in f.calls() if callee_path(t) == "serde_json::from_str"]
-    mentions_call = lambda e, bi_: expr_mentions(e, lambda y: y[0] == "call" and y[3] == bi_ and y[1] is not None)
-    good = False
-    bad_ok = []
-    err_of = set()
-    for c in cands:
-        if c[0] == "call" and c[1] and c[1]["path"] == "std::result::Result::<T, E>::map":
-            src = strip_refs(c[2][0])
-            while src[0] == "call" and src[1] and src[1]["path"] == "std::result::Result::<T, E>::map_err":
-                src = strip_refs(src[2][0])
-            clos = strip_refs(c[2][1])
-            ser = False
-            if clos[0] == "agg" and clos[1].get("agg") == "Closure":
-                cb = facts.body(clos[1]["closure"])
-                rr = strip_refs(cb.trace(0)) if cb else ("?",)
-                ser = rr[0] == "call" and rr[1] and rr[1]["path"].endswith("::to_string") and "serde_json::Value" in rr[1]["full"] and strip_refs(rr[2][0]) == ("arg", 2)
-            if src[0] == "call" and src[3] == abi and ser:
-                good = True
-                err_of.add(abi)
-            else:
-                bad_ok.append(show_expr(c)[:80])
-        elif c[0] == "agg" and c[1].get("variant") == "Ok":
-            v = strip_refs(c[2][0])
-            ser = v[0] == "call" and v[1] and v[1]["path"].endswith("::to_string") and "serde_json::Value" in (v[1].get("full") or "")
-            pay = strip_payload(v[2][0]) if ser and v[2] else None
-            if ser and pay is not None and pay[0] == "call" and pay[3] == abi:
-                good = True
-            else:
-                bad_ok.append(show_expr(c)[:80])
-        elif (c[0] == "agg" and c[1].get("variant") == "Err") or (c[0] == "call" and c[1] and "from_residual" in c[1]["path"]):
-            for bi_ in parse_bis + [abi]:
-                if mentions_call(c, bi_):
-                    err_of.add(bi_)
-        else:
-            bad_ok.append(show_expr(c)[:80])
-    ctx.check(good and not bad_ok, "K2.serialises-result", "the binding returns Value::to_string of apply's Ok payload, and nothing else on success", "the binding's result is %s" % (bad_ok or show_expr(r)[:200]), where=f.where(), fn=f.key, nontrivial=True)
+        ctx.fail("K2.parse-errors-propagate", fk, "no error exit for the failure of: %s (error exits found for %s)" % (", ".join(" ".join(map(str, st)) for st in missing), sorted(" ".join(map(str, st)) for st in have)), where=f.where(), fn=f.key)
     # errors: no dropper on any Result in the python interface
     droppers = []
     for b in py:
@@ -363,15 +696,73 @@ def check_native(ctx):
         ctx.fail("K2.error-dropped", "%s@%s" % (b.key.split("::", 1)[1], p.rsplit("::", 1)[1]), "the binding discards an error with %s — malformed input or a library error would surface as a value" % p, where=b.where(bi), fn=b.key)
     if not droppers:
         ctx.ok("K2.error-dropped", "no Result is discarded in the binding", nontrivial=True)
-    ctx.check(len(parse_bis) == 2 and all(bi_ in err_of for bi_ in parse_bis) and abi in err_of, "K2.parse-errors-propagate", "the two parse errors and the library's error each have their own error exit (`?` or an Err arm)",
-              "error exits found for calls at blocks %s of the fallible steps %s" % (sorted(err_of), parse_bis + [abi]), where=f.where(), fn=f.key, nontrivial=True)
-    # wrapper: map_err(inner(value,data), |e| PyErr::new::<ValueError,_>)
-    r = strip_refs(w.trace(0))
-    good = r[0] == "call" and r[1] and r[1]["path"] == "std::result::Result::<T, E>::map_err"
-    if good:
-        src = strip_refs(r[2][0])
-        good = src[0] == "call" and src[1].get("key") == f.key and [strip_refs(a) for a in src[2]] == [("arg", 2), ("arg", 3)]
-    ctx.check(bool(good), "K2.wrapper", "the PyResult wrapper is inner(value, data).map_err(→ exception)", "wrapper result: %s" % show_expr(r), where=w.where(), fn=w.key, nontrivial=True)
+
+
+def wrapper_table(ctx, facts, f, w):
+    """The PyResult wrapper: Ok(payload of inner(value, data)) | Err(exception) exactly when inner failed."""
+    wk = w.key.split("::", 1)[1]
+    cs = optnorm.decision_cases(facts, w)
+    if cs is None:
+        ctx.unread("K2.wrapper", wk, "the wrapper contains a loop or too many paths", where=w.where(), fn=w.key)
+        return
+
+    def is_inner(e):
+        x = _step_source(e)
+        return x[0] == "call" and x[1] and x[1].get("key") == f.key and [strip_refs(a) for a in x[2]] == [("arg", 2), ("arg", 3)]
+    n_ok = n_err = 0
+    bad = []
+    unread = []
+    for conds, v, path in cs:
+        v = strip_refs(v)
+        atoms = _case_atoms(cs, conds)
+        failed = [src for (k, src, val) in atoms if val in ("Err", "None")]
+        foreign = [src for (k, src, val) in atoms if src is None or not is_inner(src)]
+        if foreign:
+            (unread if any(s_ is not None and _mentions_helper(facts, s_, but=f.key) for s_ in foreign) else bad).append("the wrapper decides on %s" % show_expr(foreign[0])[:100] if foreign[0] is not None else "a step that was not read")
+            continue
+        if v[0] == "agg" and v[1].get("variant") == "Ok":
+            if failed:
+                bad.append("Ok(..) is returned although the binding failed")
+            elif v[2] and is_inner(v[2][0]) and strip_refs(v[2][0])[0] in ("payload", "field"):
+                n_ok += 1
+            elif v[2] and _mentions_helper(facts, v[2][0], but=f.key):
+                unread.append("success value %s" % show_expr(v)[:100])
+            else:
+                bad.append("on success the wrapper returns %s, not the binding's text" % show_expr(v)[:120])
+        elif _errish(v):
+            if failed:
+                n_err += 1
+            else:
+                bad.append("an exception is raised although the binding succeeded")
+        else:
+            x = _step_source(v)
+            if not atoms and x[0] == "call" and x[1] and x[1].get("key") == f.key:
+                bad.append("the wrapper returns the binding's Result unconverted")
+            else:
+                unread.append("result %s" % show_expr(v)[:100])
+    if bad:
+        ctx.fail("K2.wrapper", wk, "; ".join(bad[:3]), where=w.where(), fn=w.key)
+    elif unread:
+        ctx.unread("K2.wrapper", wk, "; ".join(unread[:3]), where=w.where(), fn=w.key)
+    else:
+        ctx.check(n_ok >= 1 and n_err >= 1, "K2.wrapper", "the PyResult wrapper returns inner(value, data)'s text on Ok and raises on Err — nothing else", "wrapper cases: %d success, %d failure" % (n_ok, n_err), where=w.where(), fn=w.key, nontrivial=True)
+
+
+
+def check_native(ctx):
+    facts = ctx.facts("python")
+    py = [b for b in facts.fns() if "python_iface" in b.key and not b.span.get("exp")]
+    ctx.need(py, "python interface functions not found")
+    # inner: fn(&str,&str) -> Result<String,String>; wrapper: returns PyResult
+    wrapper = [b for b in py if b.kind == "fn" and "cpython::PyErr" in facts.items[b.key]["output"]]
+    inner = [b for b in py if b.kind == "fn" and facts.items[b.key]["inputs"] == ["&str", "&str"]]
+    if len(inner) > 1 and len(wrapper) == 1:      # several (&str, &str) functions: the one the PyResult wrapper calls
+        cg0, _ = facts.callgraph()
+        inner = [b for b in inner if b.key in cg0.get(wrapper[0].key, ())] or inner
+    ctx.need(len(inner) == 1 and len(wrapper) == 1, "binding functions not identified (inner %d, wrapper %d)" % (len(inner), len(wrapper)))
+    f, w = inner[0], wrapper[0]
+    binding_table(ctx, facts, f, py)
+    wrapper_table(ctx, facts, f, w)
     ctors = []
     for b in py:
         for bi, t in b.calls():
